@@ -28,15 +28,24 @@ THEOREMS = [P_ + n for n in (
     'unb_single_obs_eq_balanced', 'single_obs_correlation', 'single_obs_poisson',
     'entry_eq_rectangle_average', 'unb_cv_eq_balanced', 'unb_poisson_cv_eq_balanced',
     'unb_poisson_cv_partial',
-    'calc_one_eq_entry', 'leaf_combine_and_prior')]
-RULE = ('one PRNG; a case = dataset (3-12 observations, 2-5 conditions, 2-6 channels, small '
-        'dyadic values, int/float dtype, C/F order; condition and fold labels are opaque values '
-        'of 8 kinds: small / negative / large ints, floats with fractional parts (float64, '
-        'float32), str arrays, lists of np.str_, bools; arbitrary order) x design '
-        '(single / unbalanced counts / fold-balanced / random folds) x missing-channel mask (none / '
+    'calc_one_eq_entry', 'leaf_combine_and_prior',
+    # round 3
+    'layout_dtype_invariant', 'layouts_hold_matrix', 'leaf_guards', 'model_uses_leaves',
+    'leaf_kernel_terms', 'kernels_by_leaves', 'dispatch_table', 'calc_one_weight',
+    'leaf_python_slices')]
+RULE = ('one PRNG; a case = dataset (2-14 observations, 2-5 conditions, 2-6 channels, small '
+        'dyadic values; dtype int64 / int32 / uint8 / float64 / float32; memory layout C / Fortran / '
+        'strided slice of a padded array / negative strides; value classes: random, channel exactly '
+        'zero everywhere / wherever observed / for one condition, all observations identical, constant '
+        'channel, all-zero observation, values not representable in float32; condition and fold labels '
+        'are opaque values of 13 kinds: small / negative / large ints, uint8, int32, python int lists, '
+        'floats with fractional parts (float64, float32, float16), str arrays, bytes, lists of np.str_, '
+        'bools; arbitrary order) x design (single / unbalanced counts / fold-balanced / random folds / '
+        'descriptor=None / list of datasets) x missing-channel mask (none / '
         'whole channels / per observation / whole observation / disjoint supports) x method (6) x '
-        'weighting (2) x precision (none / SPD) x fold descriptor (none / given) (+ one condition '
-        'pair for the single-pair helper).  Non-trivial: >= 2 conditions and at least one finite '
+        'weighting (2) x precision (none / SPD, C or F ordered, shared or per dataset) x fold descriptor '
+        '(none / given) x arguments given / left to the signature defaults (+ one condition '
+        'pair for the single-pair helper, for every method x weighting x mask).  Non-trivial: >= 2 conditions and at least one finite '
         'dissimilarity or a NaN forced by the mask; distinct = distinct (method, weighting, design, '
         'mask, labels, folds, values).')
 BRANCHES = ['method:euclidean', 'method:correlation', 'method:mahalanobis', 'method:crossnobis',
@@ -45,8 +54,21 @@ BRANCHES = ['method:euclidean', 'method:correlation', 'method:mahalanobis', 'met
             'mask:disjoint', 'dtype:int', 'dtype:float', 'order:C', 'order:F',
             'design:single', 'design:unbalanced', 'design:foldbal', 'noise:given',
             'one:cross', 'one:self', 'nan-entry', 'balanced-compared']
-BRANCHES += ['cond:' + k for k in ('int', 'negint', 'bigint', 'float', 'float32', 'str', 'npstr', 'bool')]
-BRANCHES += ['fold:' + k for k in ('int', 'negint', 'bigint', 'float', 'float32', 'str', 'npstr', 'bool')]
+LABEL_KINDS = ['int', 'negint', 'bigint', 'float', 'float32', 'str', 'npstr', 'bool',
+               'float16', 'uint8', 'int32', 'bytes', 'pylist']
+BRANCHES += ['cond:' + k for k in LABEL_KINDS]
+BRANCHES += ['fold:' + k for k in LABEL_KINDS]
+# round 3: value classes (seeded C15-6), dtypes / layouts, the single-pair helper for every
+# method / weighting / missing data, signature defaults, precision layout, list input with priors
+VCLASSES = ['silent-all', 'silent-observed', 'silent-cond', 'identical', 'constant-channel', 'zero-obs',
+            'fine']
+BRANCHES += ['values:' + v for v in VCLASSES]
+BRANCHES += ['dtype:int32', 'dtype:uint8', 'dtype:float32', 'order:strided', 'order:reversed',
+             'layout-compared', 'layout:colmajor-kept', 'layout:int-cast']
+BRANCHES += ['one:' + m for m in ('euclidean', 'correlation', 'mahalanobis', 'crossnobis', 'poisson',
+                                  'poisson_cv')]
+BRANCHES += ['one:equal', 'one:number', 'one:missing', 'one:noise', 'defaults', 'noise:F',
+             'list:prior', 'cv:index-fallback']
 BRANCHES += ['fold:collide-int', 'descriptor:none', 'input:list', 'noise:list', 'noise:shared-list',
              'noise:list-complete', 'noise:shared-list-complete']
 ASSUMPTIONS = [
@@ -59,6 +81,10 @@ TRUSTED_EXTRA = [
     'the compiled similarity*.so of the working tree is what is exercised; similarity.pyx is tied '
     'by the translator leaves (C division semantics) and by the coded-variant comparison',
     'numpy.unique / argsort contracts behind get_unique_inverse',
+    "numpy's astype(order='K') keeps the axis order of the source (row-major iff |stride 1| <= |stride 0|): "
+    'modelled rule, compared with the strides numpy produces on every case',
+    'thorough tier: gcc, the Python / numpy headers and the Cython-generated similarity.c shipped in the '
+    'tree (similarity.pyx -> similarity.c cannot be regenerated: no Cython)',
 ]
 
 METHODS = ['euclidean', 'correlation', 'mahalanobis', 'crossnobis', 'poisson', 'poisson_cv']
@@ -68,9 +94,6 @@ EXACT = {'euclidean', 'mahalanobis', 'crossnobis'}
 
 
 # ---------------------------------------------------------------- generation
-
-LABEL_KINDS = ['int', 'negint', 'bigint', 'float', 'float32', 'str', 'npstr', 'bool']
-
 
 def _label_kind(rng, n, force=None):
     """kind of a descriptor with n distinct values (bool only has two)"""
@@ -90,7 +113,15 @@ def _labels(rng, n, kind):
     if kind == 'bigint':
         return rng.sample([10 ** 12, 10 ** 12 + 1, 2 ** 40, 2 ** 31, 2 ** 31 - 1, 2 ** 32, 7, 0,
                            -2 ** 33, 999999999999], n)
-    if kind in ('float', 'float32'):
+    if kind == 'pylist':
+        return rng.sample(range(-3, 30), n)
+    if kind == 'uint8':
+        return rng.sample([0, 1, 2, 3, 7, 100, 127, 128, 200, 254, 255], n)
+    if kind == 'int32':
+        return rng.sample([0, 1, -1, 5, 17, -40, 2 ** 31 - 1, -2 ** 31, 65536, 99], n)
+    if kind == 'bytes':
+        return rng.sample(['a', 'A', 'b', 'zz', 'm1', 'cat', 'B', 'x9', '1', '10', ' a'], n)
+    if kind in ('float', 'float32', 'float16'):
         # dyadic, several values per integer part (1.0, 1.25, 1.5 ...), also negative / zero
         if n <= 4 and rng.random() < 0.6:       # all in one unit interval: equal under int()
             b = rng.choice([0, 1, 2, -3, 7])
@@ -165,12 +196,31 @@ def _gen_case(rng, force=None):
     scale = rng.choice([1, 1, 2, 4])
     mask = force.get('mask') or rng.choice(['none'] * 5 + ['whole', 'whole', 'perobs', 'perobs',
                                                        'perobs', 'obs', 'disjoint'])
+    vclass = force.get('vclass') or (rng.choice(VCLASSES) if rng.random() < 0.3 else 'random')
+    if vclass == 'zero-obs' and kern == 'correlation':
+        vclass = 'silent-all'                # an all-zero pattern is constant: outside the property
+    if vclass == 'silent-observed' and mask in ('none', 'whole'):
+        mask = 'perobs'
     dtype = 'float'
-    if mask == 'none' and rng.random() < 0.3:
-        dtype, scale = 'int', 1
-    order = rng.choice(['C', 'C', 'F'])
-    for _attempt in range(30):
+    if mask == 'none' and rng.random() < 0.4:
+        dtype, scale = rng.choice(['int', 'int', 'int32', 'uint8']), 1
+    elif rng.random() < 0.15:
+        dtype = 'float32'
+    if force.get('dtype') and (force['dtype'] in ('float', 'float32') or mask == 'none'):
+        dtype = force['dtype']
+        scale = scale if dtype in ('float', 'float32') else 1
+    if vclass == 'fine':
+        # values k + r / 2^22 (r odd): exact in float64, not representable in float32
+        dtype, scale = 'float', FINE
+    if dtype == 'uint8':
+        lo = max(lo, 0)
+    order = force.get('order') or rng.choice(['C', 'C', 'F', 'F', 'strided', 'reversed'])
+    for _attempt in range(40):
         vals = [[rng.randint(lo, 8) for _ in range(P)] for _ in range(n_obs)]
+        if vclass == 'fine':
+            vals = [[v * FINE + (rng.randrange(1, FINE, 2) if rng.random() < 0.8 else 0) for v in row]
+                    for row in vals]
+        _apply_vclass(rng, vals, labels, vclass, P, lo)
         if mask == 'whole':
             for c in rng.sample(range(P), rng.randint(1, max(1, P - (3 if kern == 'correlation' else 1)))):
                 for row in vals:
@@ -180,6 +230,11 @@ def _gen_case(rng, force=None):
                 if rng.random() < 0.5:
                     for c in rng.sample(range(P), rng.randint(1, max(1, P - 3))):
                         row[c] = None
+            if vclass == 'silent-observed':
+                # the silent channel: missing for some observations, zero for all the others
+                c0 = next(c for c in range(P) if all(r[c] in (0, None) for r in vals))
+                for k in range(n_obs):
+                    vals[k][c0] = None if k % 2 == 0 and k + 1 < n_obs else 0
         elif mask == 'obs':
             i = rng.randrange(n_obs)
             vals[i] = [None] * P
@@ -200,6 +255,8 @@ def _gen_case(rng, force=None):
     else:
         mask = 'none'
         vals = [[(i * 3 + c * c + (i * c) % 5) % 7 + 1 for c in range(P)] for i in range(n_obs)]
+        if vclass == 'fine':                 # small integers: keep them of order one
+            scale = 1
     noise = None
     noise_scale = 1
     if kern == 'mahalanobis' and (force.get('noise') or rng.random() < 0.65):
@@ -207,12 +264,17 @@ def _gen_case(rng, force=None):
         noise = [[sum(B[i][k] * B[j][k] for k in range(P)) + (2 if i == j else 0)
                   for j in range(P)] for i in range(P)]
         noise_scale = rng.choice([1, 2])
+    lam, pw = force.get('prior') or (rng.choice([1.0, 0.5, 2.0]), rng.choice([0.1, 0.25, 1.0]))
+    defaults = force.get('defaults', rng.random() < 0.08)
+    if defaults:                             # leave prior_lambda / prior_weight / weighting to the signature
+        lam, pw, weighting = 1.0, 0.1, 'number'
     case = {
         'vals': vals, 'scale': scale, 'dtype': dtype, 'order': order, 'labels': labels,
         'folds': folds, 'method': method, 'weighting': weighting, 'noise': noise,
-        'noise_scale': noise_scale, 'lam': rng.choice([1.0, 0.5, 2.0]),
-        'pw': rng.choice([0.1, 0.25, 1.0]), 'design': design, 'mask': mask, 'one': None,
+        'noise_scale': noise_scale, 'lam': lam, 'pw': pw, 'design': design, 'mask': mask, 'one': None,
         'cond_kind': lab_kind, 'fold_kind': fold_kind if folds is not None else None,
+        'vclass': vclass, 'defaults': defaults,
+        'noise_order': (force.get('noise_order') or rng.choice(['C', 'F'])) if noise is not None else None,
     }
     if force.get('nodesc') or (force.get('nodesc') is None and rng.random() < 0.06):
         # descriptor=None: every observation is its own condition ('index')
@@ -235,7 +297,7 @@ def _gen_case(rng, force=None):
                        for j in range(P)] for i in range(P)]
             case['extra'].append({'vals': ev, 'noise': en})
     uniq = orc.first_appearance(labels)
-    if rng.random() < 0.6:
+    if force.get('one') or (force.get('one') is None and rng.random() < 0.6):
         crossval = orc.crossval_of(case)
         if crossval and rng.random() < 0.3:
             a = rng.choice(uniq)
@@ -243,6 +305,64 @@ def _gen_case(rng, force=None):
         else:
             case['one'] = rng.sample(uniq, 2)
     return case
+
+
+FINE = 2 ** 22
+
+
+def _apply_vclass(rng, vals, labels, vclass, P, lo):
+    """value classes that random small integers (almost) never produce"""
+    n = len(vals)
+    if vclass in ('silent-all', 'silent-observed'):
+        for c in rng.sample(range(P), 1 if P < 4 else rng.randint(1, 2)):
+            for row in vals:                 # a channel that is exactly zero for every observation
+                row[c] = 0
+    elif vclass == 'silent-cond':
+        c = rng.randrange(P)                 # a channel silent for one condition only
+        a = rng.choice(labels)
+        for k in range(n):
+            if labels[k] == a:
+                vals[k][c] = 0
+    elif vclass == 'identical':
+        for k in range(1, n):                # all observations identical
+            vals[k] = list(vals[0])
+    elif vclass == 'constant-channel':
+        c = rng.randrange(P)                 # a channel with the same non-zero value everywhere
+        v = rng.choice([x for x in (1, 3, 8, -2) if x >= lo])
+        for row in vals:
+            row[c] = v
+    elif vclass == 'zero-obs':
+        k = rng.randrange(n)                 # an observation that is zero in every channel
+        vals[k] = [0] * P
+
+
+def value_tags(case):
+    """value classes actually present in the data (computed, not taken from the generator)"""
+    vals, labels = case['vals'], case['labels']
+    P = len(vals[0])
+    tags = []
+    cols = [[row[c] for row in vals] for c in range(P)]
+    obs = [[v for v in col if v is not None] for col in cols]
+    if any(o and len(o) == len(vals) and all(v == 0 for v in o) for o in obs):
+        tags.append('silent-all')
+    if any(o and len(o) < len(vals) and all(v == 0 for v in o) for o in obs):
+        tags.append('silent-observed')
+    for a in set(labels):
+        for c in range(P):
+            mine = [vals[k][c] for k in range(len(vals)) if labels[k] == a and vals[k][c] is not None]
+            rest = [vals[k][c] for k in range(len(vals)) if labels[k] != a and vals[k][c] is not None]
+            if mine and all(v == 0 for v in mine) and any(v != 0 for v in rest):
+                tags.append('silent-cond')
+    if len(vals) > 1 and all(row == vals[0] for row in vals) and any(v is not None for v in vals[0]):
+        tags.append('identical')
+    if any(len(o) == len(vals) and len(set(o)) == 1 and o[0] != 0 for o in obs):
+        tags.append('constant-channel')
+    if any(all(v == 0 for v in row) for row in vals):
+        tags.append('zero-obs')
+    sc = case['scale']
+    if any(v is not None and float(np.float32(v / sc)) != v / sc for row in vals for v in row):
+        tags.append('fine')
+    return sorted(set(tags))
 
 
 def _corr_ok(vals, P):
@@ -261,14 +381,45 @@ def _corr_ok(vals, P):
 
 
 def generate(rng, tier):
-    n = 330 if tier == 'quick' else 9000
-    # a deterministic skeleton that reaches every method x weighting x mask, then random cases
+    n = 420 if tier == 'quick' else 9000
+    if tier == 'thorough':
+        # differential run of the shipped binary against a rebuild of the shipped C text
+        if 'rebuilt-so' not in BRANCHES:
+            BRANCHES.append('rebuilt-so')
+        orc.rebuild_kernel()
+    # a deterministic skeleton that reaches every method x weighting x mask (each with the
+    # single-pair helper), then random cases
     k = 0
     for method in METHODS:
         for weighting in ('number', 'equal'):
             for mask in ('none', 'whole', 'perobs'):
-                yield _gen_case(rng, {'method': method, 'weighting': weighting, 'mask': mask})
+                yield _gen_case(rng, {'method': method, 'weighting': weighting, 'mask': mask,
+                                      'one': True, 'defaults': False})
                 k += 1
+    # value classes (seeded C15-6: a channel that is exactly zero wherever it is observed is data)
+    for vclass in VCLASSES:
+        for method in METHODS:
+            yield _gen_case(rng, {'method': method, 'vclass': vclass, 'defaults': False,
+                                  'mask': 'none' if vclass != 'silent-observed' else 'perobs',
+                                  'weighting': 'number', 'nodesc': False})
+            k += 1
+    # dtypes x layouts of the measurement array; defaults of the signature; precision layout
+    for dtype in ('int', 'int32', 'uint8', 'float', 'float32'):
+        for order in orc.LAYOUTS:
+            yield _gen_case(rng, {'method': rng.choice(METHODS), 'dtype': dtype, 'order': order,
+                                  'mask': 'none'})
+            k += 1
+    for method in METHODS:
+        yield _gen_case(rng, {'method': method, 'defaults': True, 'mask': 'none', 'one': True})
+        k += 1
+    for method in ('mahalanobis', 'crossnobis'):
+        yield _gen_case(rng, {'method': method, 'noise': True, 'noise_order': 'F', 'mask': 'none',
+                              'weighting': 'number', 'one': True})
+        k += 1
+    for method in ('poisson', 'poisson_cv'):
+        yield _gen_case(rng, {'method': method, 'extra': 2, 'nodesc': False, 'defaults': False,
+                              'mask': 'none', 'prior': (2.0, 0.25)})
+        k += 1
     for method in METHODS:
         yield _gen_case(rng, {'method': method, 'mask': 'none', 'weighting': 'number',
                               'design': 'foldbal1' if method in ('crossnobis', 'poisson_cv') else 'single'})
@@ -323,13 +474,9 @@ def _model_req(case, coded):
     lab_code = orc.label_codes(case['labels'])
     labels = [lab_code[l] for l in case['labels']]
     folds = None
-    crossval = orc.crossval_of(case)
-    if crossval:
-        if case['folds'] is not None:
-            fc = orc.label_codes(case['folds'])
-            folds = [fc[f] for f in case['folds']]
-        else:
-            folds = list(range(len(labels)))
+    if case['folds'] is not None:
+        fc = orc.label_codes(case['folds'])
+        folds = [fc[f] for f in case['folds']]
     noise = None
     if case['noise'] is not None:
         ns = case['noise_scale']
@@ -341,7 +488,8 @@ def _model_req(case, coded):
         folds = [fs.index(f) for f in folds]
     return {
         'op': 'c15.calc', 'mode': 'rat' if exact else 'float', 'data': data, 'labels': labels,
-        'folds': folds, 'method': KERNEL[case['method']], 'P': len(case['vals'][0]),
+        'folds': folds, 'cv_given': case['folds'] is not None, 'method': case['method'],
+        'P': len(case['vals'][0]),
         'number': case['weighting'] == 'number', 'coded': coded, 'noise': noise,
         'lam': enc(F(case['lam']) if exact else case['lam']),
         'pw': enc(F(case['pw']) if exact else case['pw']),
@@ -363,14 +511,27 @@ def _one_req(case):
         ns = case['noise_scale']
         noise = [[enc(F(v, ns) if exact else v / ns) for v in row] for row in case['noise']]
     return {'op': 'c15.one', 'mode': 'rat' if exact else 'float', 'data_i': rows(ia),
-            'data_j': rows(ib), 'cv_i': cva, 'cv_j': cvb, 'method': KERNEL[case['method']],
+            'data_j': rows(ib), 'cv_i': cva, 'cv_j': cvb, 'method': case['method'],
             'P': len(case['vals'][0]), 'number': case['weighting'] == 'number', 'coded': False,
             'noise': noise, 'lam': enc(F(case['lam']) if exact else case['lam']),
             'pw': enc(F(case['pw']) if exact else case['pw'])}
 
 
+def _layout_req(case):
+    """the measurement array as raw memory (flat buffer, offset, strides in elements)"""
+    X = orc._matrix(case)
+    flat, off, s0, s1 = orc.raw_view(X)
+    ints = X.dtype.kind in 'iu'
+    if ints:
+        buf = [int(v) for v in flat]
+    else:
+        buf = [None if math.isnan(float(v)) else fbits(float(v)) for v in flat]
+    return {'op': 'c15.layout', 'ints': ints, 'buf': buf, 'off': int(off), 's0': int(s0),
+            's1': int(s1), 'n': int(X.shape[0]), 'P': int(X.shape[1])}
+
+
 def model_requests(case):
-    reqs = [_model_req(case, False), _model_req(case, True)]
+    reqs = [_model_req(case, False), _model_req(case, True), _layout_req(case)]
     if case.get('one'):
         reqs.append(_one_req(case))
     for sc in orc.sub_cases(case)[1:]:
@@ -400,10 +561,14 @@ def model_result(case, answers):
         'coded_buf': [_dec(case, x) for x in coded['out']],
         'one': None,
     }
-    k = 2
+    lay = answers[2]
+    res['layout'] = {'s0': lay['s0'], 's1': lay['s1'],
+                     'read': [[float('nan') if x is None else unfbits(x) for x in row]
+                              for row in lay['read']]}
+    k = 3
     if case.get('one'):
-        res['one'] = [_dec(case, x) for x in answers[2]]
-        k = 3
+        res['one'] = [_dec(case, x) for x in answers[3]]
+        k = 4
     res['multi'] = None
     if case.get('extra'):
         res['multi'] = [res['rdm']] + [[_dec(case, x) for x in a['rdm']] for a in answers[k:]]
@@ -426,6 +591,19 @@ def compare(case, impl, model):
         return f"labels {impl['labels']} != {model['labels']}"
     for key, mkey in (('buf', 'buf'), ('rdm', 'rdm'), ('rdm_alt', 'rdm')):
         d = first_diff(impl[key], model[mkey], 1e-9, atol, key)
+        if d:
+            return 'impl vs model ' + d
+    # dtype / memory layout: what `ensure_double` hands to the kernel (strides and content) against
+    # the layout model reading the raw memory of the user's array; and against the case's values
+    il, ml = impl.get('layout'), model['layout']
+    if il is not None:
+        if 'exc' in il:
+            return 'ensure_double: ' + il['exc']
+        want = [[float('nan') if v is None else v / case['scale'] for v in row] for row in case['vals']]
+        d = first_diff(il['read'], ml['read'], 0.0, 0.0, 'ensure_double content') or \
+            first_diff(ml['read'], want, 0.0, 0.0, 'layout model vs logical matrix')
+        if not d and min(len(want), len(want[0])) >= 2 and (il['s0'], il['s1']) != (ml['s0'], ml['s1']):
+            d = f"ensure_double strides {(il['s0'], il['s1'])} != layout model {(ml['s0'], ml['s1'])}"
         if d:
             return 'impl vs model ' + d
     if case.get('one'):
@@ -451,6 +629,18 @@ def compare(case, impl, model):
             d = orc.map_diff(impl['balanced'], want, 1e-9, atol)
             if d:
                 return 'calc_rdm vs model balanced formula: ' + d
+    # (thorough tier) the shipped binary against the binary rebuilt from the tree's similarity.c;
+    # not where the kernel reads past its buffers (values not reproducible, known finding)
+    rb = impl.get('rebuilt')
+    if rb is not None and not (orc.has_missing(case) and case['noise'] is not None):
+        if 'exc' in rb:
+            return f"kernel rebuilt from similarity.c raised {rb['exc']}"
+        d = first_diff(impl['buf'], rb['buf'], 1e-12, 1e-300, 'buffer') or \
+            first_diff(impl['rdm'], rb['rdm'], 1e-12, 1e-300, 'rdm')
+        if not d and case.get('one'):
+            d = first_diff(impl['one'], rb['one'], 1e-12, 1e-300, 'calc_one')
+        if d:
+            return 'shipped similarity*.so vs the kernel rebuilt from similarity.c: ' + d
     # the kernel *text* (leaves with C semantics) against the compiled kernel
     if orc.coded_comparable(case):
         d = first_diff(impl['buf'], model['coded_buf'], 1e-9, atol, 'buf')
@@ -480,6 +670,22 @@ def features(case, impl):
             if not has_missing:
                 br.append('noise:list-complete' if case.get('noise_mode') == 'list'
                           else 'noise:shared-list-complete')
+    br += ['values:' + t for t in value_tags(case)]
+    if case.get('defaults'):
+        br.append('defaults')
+    if case.get('noise_order') == 'F' and case['noise'] is not None:
+        br.append('noise:F')
+    if case.get('extra') and KERNEL[case['method']] == 'poisson' and \
+            (case['lam'], case['pw']) != (1.0, 0.1) and not case.get('defaults'):
+        br.append('list:prior')
+    if case['folds'] is None and case['method'] in ('crossnobis', 'poisson_cv'):
+        br.append('cv:index-fallback')
+    if impl and impl.get('layout') and 'exc' not in impl['layout']:
+        br.append('layout-compared')
+        if impl['layout']['s0'] < impl['layout']['s1']:
+            br.append('layout:colmajor-kept')
+        if case['dtype'] in ('int', 'int32', 'uint8'):
+            br.append('layout:int-cast')
     br.append('cond:' + orc.kind_of(case, 'cond'))
     if case['folds'] is not None:
         br.append('fold:' + orc.kind_of(case, 'fold'))
@@ -489,6 +695,13 @@ def features(case, impl):
             br.append('fold:collide-int')      # distinct folds that a cast to int would merge
     if case.get('one'):
         br.append('one:self' if case['one'][0] == case['one'][1] else 'one:cross')
+        br += ['one:' + case['method'], 'one:' + case['weighting']]
+        if has_missing:
+            br.append('one:missing')
+        if case['noise'] is not None:
+            br.append('one:noise')
+    if impl and impl.get('rebuilt') and 'exc' not in impl['rebuilt']:
+        br.append('rebuilt-so')
     if impl and 'rdm' in impl:
         if any(isinstance(v, float) and math.isnan(v) for v in impl['rdm']):
             br.append('nan-entry')
@@ -501,6 +714,8 @@ def features(case, impl):
             'cond_kind': orc.kind_of(case, 'cond'),
             'fold_kind': orc.kind_of(case, 'fold') if case['folds'] is not None else 'none',
             'n_cond': len(set(case['labels'])), 'n_channel': len(case['vals'][0]),
+            'vclass': '+'.join(value_tags(case)) or 'none', 'defaults': bool(case.get('defaults')),
+            'has_one': bool(case.get('one')), 'is_list': bool(case.get('extra')),
             'branches': br}
 
 
